@@ -38,4 +38,31 @@ theorem modelled_functions_are_source :
       "{ if node == nil { return nil } if onPath[node] { return fmt.Errorf(\"cycle detected: node at line %d contains itself\", node.Line) } onPath[node] = true defer delete(onPath, node) if node.Kind == yaml.AliasNode { return checkAcyclic(node.Alias, onPath) } for _, child := range node.Content { if err := checkAcyclic(child, onPath); err != nil { return err } } return nil }" :=
   ⟨rfl, rfl, rfl, rfl, rfl, rfl, rfl, rfl, rfl, rfl, rfl, rfl⟩
 
+/-- (round 6) `getExtendsBaseFromFile` — the function `Model/C01PipelineFS.lean` composes with the per-document pipeline:
+the cloned option set (`ResolvePaths = false`, `SkipNormalization`, `SkipConsistencyCheck`, `SkipInclude`, `SkipExtends`,
+`SkipValidation`, `SkipDefaultValues`), `loadYamlFile` into an empty model, the `services` / base-present checks, then
+`ResolveRelativePaths` at the file's directory.  Dropping or adding one assignment to `extendsOpts` breaks this. -/
+theorem extends_base_load_is_source :
+    CV.Gen.c01_body_getExtendsBaseFromFile =
+      "{ for _, loader := range opts.ResourceLoaders { if !loader.Accept(refPath) { continue } local, err := loader.Load(ctx, refPath) if err != nil { return nil, nil, err } localdir := filepath.Dir(local) relworkingdir := loader.Dir(refPath) extendsOpts := opts.clone() extendsOpts.ResourceLoaders = append(opts.RemoteResourceLoaders(), localResourceLoader{ WorkingDir: localdir, }) extendsOpts.ResolvePaths = false extendsOpts.SkipNormalization = true extendsOpts.SkipConsistencyCheck = true extendsOpts.SkipInclude = true extendsOpts.SkipExtends = true extendsOpts.SkipValidation = true extendsOpts.SkipDefaultValues = true source, processor, err := loadYamlFile(ctx, types.ConfigFile{Filename: local}, extendsOpts, relworkingdir, nil, ct, map[string]any{}, nil) if err != nil { return nil, nil, err } m, ok := source[\"services\"] if !ok { return nil, nil, fmt.Errorf(\"cannot extend service %q in %s: no services section\", name, local) } services, ok := m.(map[string]any) if !ok { return nil, nil, fmt.Errorf(\"cannot extend service %q in %s: services must be a mapping\", name, local) } _, ok = services[ref] if !ok { return nil, nil, fmt.Errorf( \"cannot extend service %q in %s: service %q not found in %s\", name, path, ref, refPath, ) } var remotes []paths.RemoteResource for _, loader := range opts.RemoteResourceLoaders() { remotes = append(remotes, loader.Accept) } err = paths.ResolveRelativePaths(source, relworkingdir, remotes) if err != nil { return nil, nil, err } return services, processor, nil } return nil, nil, fmt.Errorf(\"cannot read %s\", refPath) }" := rfl
+
+/-- (round 6) the readers of a service's `env_file` / `label_file` that `Model/C01Files.lean` mirrors (types/project.go):
+the two loops, `loadEnvFile` (missing ∧ required → error naming the file; missing ∧ optional → skipped), `loadLabelFile`,
+`loadMappingFile`, `fileIsMissing` (ErrNotExist or ENOTDIR).  A cache, a reordered test or a swallowed error in any of
+them (seeded change C01-8: an "absent" cache shared by the references) breaks this obligation. -/
+theorem service_file_readers_are_source :
+    CV.Gen.c01_body_WithServicesEnvironmentResolved =
+      "{ newProject := p.deepCopy() for i, service := range newProject.Services { service.Environment = service.Environment.Resolve(newProject.Environment.Resolve) environment := MappingWithEquals{} var resolve dotenv.LookupFn = func(s string) (string, bool) { v, ok := environment[s] if ok && v != nil { return *v, ok } return newProject.Environment.Resolve(s) } for _, envFile := range service.EnvFiles { vars, err := loadEnvFile(envFile, resolve) if err != nil { return nil, err } environment.OverrideBy(vars.ToMappingWithEquals()) } service.Environment = environment.OverrideBy(service.Environment) if discardEnvFiles { service.EnvFiles = nil } newProject.Services[i] = service } return newProject, nil }" ∧
+    CV.Gen.c01_body_WithServicesLabelsResolved =
+      "{ newProject := p.deepCopy() for i, service := range newProject.Services { labels := MappingWithEquals{} var resolve dotenv.LookupFn = func(s string) (string, bool) { v, ok := labels[s] if ok && v != nil { return *v, ok } return \"\", false } for _, labelFile := range service.LabelFiles { vars, err := loadLabelFile(labelFile, resolve) if err != nil { return nil, err } labels.OverrideBy(vars.ToMappingWithEquals()) } labels = labels.OverrideBy(service.Labels.ToMappingWithEquals()) if len(labels) == 0 { labels = nil } else { service.Labels = NewLabelsFromMappingWithEquals(labels) } if discardLabelFiles { service.LabelFiles = nil } newProject.Services[i] = service } return newProject, nil }" ∧
+    CV.Gen.c01_body_loadEnvFile =
+      "{ if _, err := os.Stat(envFile.Path); fileIsMissing(err) { if envFile.Required { return nil, fmt.Errorf(\"env file %s not found: %w\", envFile.Path, err) } return nil, nil } return loadMappingFile(envFile.Path, envFile.Format, resolve) }" ∧
+    CV.Gen.c01_body_loadLabelFile =
+      "{ if _, err := os.Stat(labelFile); fileIsMissing(err) { return nil, fmt.Errorf(\"label file %s not found: %w\", labelFile, err) } return loadMappingFile(labelFile, \"\", resolve) }" ∧
+    CV.Gen.c01_body_loadMappingFile =
+      "{ file, err := os.Open(path) if err != nil { return nil, err } defer file.Close() var fileVars map[string]string if format != \"\" { fileVars, err = dotenv.ParseWithFormat(file, path, resolve, format) } else { fileVars, err = dotenv.ParseWithLookup(file, resolve) } if err != nil { return nil, err } return fileVars, nil }" ∧
+    CV.Gen.c01_body_fileIsMissing =
+      "{ return errors.Is(err, fs.ErrNotExist) || errors.Is(err, syscall.ENOTDIR) }" :=
+  ⟨rfl, rfl, rfl, rfl, rfl, rfl⟩
+
 end CV.C01.Source
